@@ -939,6 +939,7 @@ layout_main (void)
 /* ------------------------------------------------------------------------ */
 
 static uint64_t fz_state;
+static int fz_flags;
 
 static uint32_t
 fz_rand (void)
@@ -957,6 +958,9 @@ msgfuzz_main (int argc, char **argv)
 		return 2;
 	fz_state = strtoull (argv[2], NULL, 0);
 	iters = strtol (argv[3], NULL, 0);
+	/* flags: 1 = no header length < 8, 2 = no header length > buffer (recorded findings, see NOTES.md) */
+	if (argc >= 5)
+		fz_flags = (int) strtol (argv[4], NULL, 0);
 	signal (SIGPIPE, SIG_IGN);
 
 	for (it = 0; it < iters; ++it) {
@@ -991,6 +995,12 @@ msgfuzz_main (int argc, char **argv)
 			case 3: len = 8; body = 0; break;
 			default: break;
 			}
+			if ((fz_flags & 1) && len < 8)
+				len = 8 + body;
+			if ((fz_flags & 2) && len > cap_len)
+				len = 8 + body;
+			if (fz_flags && len >= 8 && len <= cap_len)
+				body = len - 8;	/* keep the stream in step, or the next "header" is random */
 			k = htonl (len);
 			memcpy (wire + wire_len, &k, 4);
 			k = htonl (type);
